@@ -4,6 +4,8 @@ import click
 from contracts.report import (results_of, compliant_spec, Generate, okj, errj, add_plus, strip_plus, caches_ok, frame_report)
 
 project_of = ufun("project_of", ["ClickObj"], "Project")
+path_join = ufun("path_join", ["Path", "Path"], "Path")
+path_of_str = ufun("path_of_str", ["str"], "Path")
 
 
 @contract("reuse.cli.common.ClickObj.project", serves=["C01", "C16"], assumed=True,
@@ -16,7 +18,9 @@ class ClickObjProject:
     idempotent = True
 
     def post(self, result):
-        return result == project_of(self)
+        # (Project.from_directory: when .reuse/dep5 exists it is the project's global licensing object)
+        return result == project_of(self) and implies(
+            path_join(result.root, path_of_str(".reuse/dep5")).exists(), result.global_licensing is not None)
 
 
 fmt_json = ufun("fmt_json", ["ProjectReport"], "str")
@@ -94,3 +98,10 @@ class LintFile:
         return False
 
     loops = {0: LoopSpec(inv=lambda subset_files: True)}
+
+
+# ---- spdx (C15: writes only to -o FILE or stdout) -------------------------------------------------------------------------
+@contract("reuse.report.ProjectReport.bill_of_materials", serves=["C15", "C18"], assumed=True,
+          why="text generation from the report (its content is C18's obligation); reads LicenseRef- texts, writes nothing")
+class BillOfMaterialsFrame:
+    types = {"self": "ProjectReport", "creator_person": "Optional[str]", "creator_organization": "Optional[str]", "return": "str"}
